@@ -63,7 +63,7 @@ fn check_avp(ctx: &mut Ctx, a: &SAvp, ca: &AVP, oversize: bool) {
     let desc = format!("attr {} hidden {} payload {} octets", a.attr, a.hidden, crate::spec::encode::payload(a).len());
     let gl = exec::get_length(ca);
     let base = *ctx.rng.pick(&[65_536usize, 0x1_0000_0000, 0x1_0000_0400, 1 << 40]);
-    for wk in [Wk::Vec, Wk::Recording, Wk::OffsetLenient(base)] {
+    for wk in [Wk::Vec, Wk::Recording, Wk::OffsetLenient(base), Wk::WhileUnwinding] {
         match exec::encode_avp(ca, wk) {
             exec::EncOut::Ok(e) => match walk_avps(&e.bytes) {
                 Ok(recs) if recs.len() == 1 => {
@@ -118,7 +118,7 @@ fn check_msg(ctx: &mut Ctx, c: &SControl, expected_total: usize) {
     let oversize = expected_total > 65535;
     let desc = format!("control message, {} AVPs, {} octets expected", c.avps.len(), expected_total);
     let base = *ctx.rng.pick(&[65_536usize, 0x1_0000_0000, 0x1_0000_0400, 1 << 40]);
-    for wk in [Wk::Vec, Wk::Recording, Wk::OffsetLenient(base)] {
+    for wk in [Wk::Vec, Wk::Recording, Wk::OffsetLenient(base), Wk::WhileUnwinding] {
         match exec::encode_msg(&cm, wk) {
             exec::EncOut::Ok(e) => match walk_control(&e.bytes) {
                 Ok(recs) => {
